@@ -1,4 +1,5 @@
 import Pxv.Lemmas.Order
+import Pxv.Lemmas.Stalemate
 /-!
 C02 — rule-abiding blueprints are accepted: the ordering step never gets stuck.
 
@@ -291,5 +292,74 @@ def exStuck : Graph :=
     edges := [⟨0, 1, .move⟩, ⟨0, 2, .shared⟩, ⟨1, 2, .move⟩] }
 example : let g := exStuck
     noConflict g = false ∧ order g = none := by decide
+
+
+/-! ### the forward pass `ordering_stalemates` (repo commit 3ac248c)
+
+Before that repair nothing guaranteed the hypothesis of `order_never_stuck_of_run`: `complex_borrow_check` releases the
+borrows of a node when it has visited it, whether or not the node's own dependencies can be scheduled, so a cycle of
+"borrowers first" constraints that goes through dependency edges was accepted and the ordering step panicked
+(`exCross` below; replayed on the real compiler: corpus/e2e/crossing_stalemate_through_dependencies). The last pass
+of the borrow checker now plays the ordering forward; these theorems are about its mirror `findStalemate` /
+`resolveStalemates` (Model/Stalemate.lean), compared with the real pass on every call graph of every run. -/
+
+/-- **no stalemate, no panic**: when the forward pass finds no stalemate in a well-formed acyclic call graph, a complete
+    legal order exists and the ordering step — whatever it places first — finds one. -/
+theorem no_stalemate_order {g : Graph} {r : Nat → Nat} (hwf : g.wellFormed = true) (hr : Ranked g r)
+    (h : findStalemate g [] = none) :
+    ∃ σ, order g = some σ ∧ isRun g σ = true ∧ σ.length = g.size := by
+  obtain ⟨final, hrun, hb, hfr⟩ := findStalemateLoop_none (g := g) (g.size + 1) [] (by simp [isRunFrom])
+    (by simp) h
+  have hall := all_placed hr hwf hfr
+  have hcomp : isComplete g final = true := by
+    unfold isComplete
+    rw [List.all_eq_true]
+    intro n hn
+    exact List.contains_iff_mem.mpr (hall n (List.mem_range.mp hn))
+  exact order_never_stuck_of_run (τ := final) hrun hcomp hb
+
+/-- **C02 / C09 (ordering, unconditional)**: whenever `ordering_stalemates` reports nothing, the call graph it hands to
+    `OrderedCallGraph::order` (with the clones it inserted) can be ordered: the `unreachable!("... stuck ...")` is dead
+    for every well-formed acyclic input graph, with no assumption on who borrows or consumes what. -/
+theorem stalemates_resolved_order {g g' : Graph} {r : Nat → Nat} (hwf : g.wellFormed = true) (hr : Ranked g r)
+    (h : resolveStalemates g = (g', [])) :
+    ∃ σ, order g' = some σ ∧ isRun g' σ = true ∧ σ.length = g'.size := by
+  obtain ⟨_, hwf', ⟨r', hr'⟩, hnone⟩ := resolveLoop_sound _ g [] [] g' h hwf ⟨r, hr⟩
+  exact no_stalemate_order hwf' hr' (hnone rfl)
+
+/-- a diagnostic is only reported for a stuck node none of whose contended inputs may be cloned. -/
+theorem stalemate_reported_only_if_not_cloneable (fuel : Nat) (g : Graph) (reported : List Nat) (ds : List OsDiag)
+    (n : Nat) (bl : List Nat) (h : findStalemate g reported = some (n, bl))
+    (hc : ∃ b ∈ bl, (g.node b).cloneable = true) :
+    resolveLoop (fuel + 1) g reported ds =
+      resolveLoop fuel (insertClone g ((bl.find? (fun b => (g.node b).cloneable)).getD 0) n).1 reported ds := by
+  obtain ⟨b, hb, hcb⟩ := hc
+  simp only [resolveLoop, h]
+  cases hf : bl.find? (fun b => (g.node b).cloneable) with
+  | some b' => simp
+  | none =>
+    rw [List.find?_eq_none] at hf
+    exact absurd hcb (by simpa using hf b hb)
+
+-- The witness: V1 = 0, V2 = 1, c1(V1) = 2, b2(&V2, c1) = 3, c2(V2) = 4, b1(&V1, c2) = 5, handler(b2, b1) = 6.
+def exCross (cloneable : Bool) : Graph :=
+  { nodes := [{ cloneable }, { cloneable }, {}, {}, {}, {}, {}],
+    edges := [⟨0, 2, .move⟩, ⟨1, 3, .shared⟩, ⟨2, 3, .move⟩, ⟨1, 4, .move⟩, ⟨0, 5, .shared⟩, ⟨4, 5, .move⟩,
+              ⟨3, 6, .move⟩, ⟨5, 6, .move⟩] }
+-- b1 < c1 < b2 < c2 < b1: no order exists (the compiler panicked here), the forward pass names the stuck node
+example : order (exCross false) = none ∧ findStalemate (exCross false) [] = some (2, [0]) := by decide
+-- not cloneable: reported, once
+example : (resolveStalemates (exCross false)).2 = [.stalemate 2 [0]] := by decide
+-- clone-if-necessary: one clone of V1 (node 7) for c1 breaks the cycle, nothing is reported, and the result can be ordered
+example : (resolveStalemates (exCross true)).2 = [] ∧
+    (resolveStalemates (exCross true)).1.edges = [⟨1, 3, .shared⟩, ⟨2, 3, .move⟩, ⟨1, 4, .move⟩, ⟨0, 5, .shared⟩,
+      ⟨4, 5, .move⟩, ⟨3, 6, .move⟩, ⟨5, 6, .move⟩, ⟨0, 7, .shared⟩, ⟨7, 2, .move⟩] ∧
+    order (resolveStalemates (exCross true)).1 = some [0, 1, 7, 2, 3, 4, 5, 6] := by decide
+-- and the hypotheses of `stalemates_resolved_order` are met by it
+example : (exCross true).wellFormed = true ∧ Ranked (exCross true) (fun n => n) := by
+  refine ⟨by decide, ?_⟩
+  intro e he
+  simp [exCross] at he
+  rcases he with rfl | rfl | rfl | rfl | rfl | rfl | rfl | rfl <;> decide
 
 end Pxv.CG
